@@ -71,6 +71,24 @@ fn main() {
             }
         }
         "run" => run(&args),
+        "load-probe" => {
+            // load a DSL file read from stdin (in a process of its own, so that a hang can be
+            // observed and attributed from the outside)
+            let mut t = String::new();
+            use std::io::Read;
+            let _ = std::io::stdin().read_to_string(&mut t);
+            let r = tree_sitter_graph::ast::File::from_str(oracle::tree::python(), &t);
+            println!("{}", if r.is_ok() { "ok" } else { "error" });
+        }
+        "query-probe" => {
+            // compile a query read from stdin with plain tree-sitter (used to attribute hangs of
+            // tree-sitter's own query compiler)
+            let mut q = String::new();
+            use std::io::Read;
+            let _ = std::io::stdin().read_to_string(&mut q);
+            let r = tree_sitter::Query::new(&oracle::tree::python(), &q);
+            println!("{}", if r.is_ok() { "ok" } else { "error" });
+        }
         "c12-transcript" => {
             let seed: u64 = args.get(2).and_then(|s| s.parse().ok()).unwrap_or(0);
             let cases: usize = args.get(3).and_then(|s| s.parse().ok()).unwrap_or(100);
